@@ -785,7 +785,7 @@ func (g *gen) randomSci() (string, *big.Int, int64) {
 			sg = "+"
 		}
 		text += fmt.Sprintf("%s%s%d", es, sg, exp)
-		if exp == 0 && r.Bool() {
+		if exp == 0 && sg == "" && r.Bool() {
 			text = text[:len(text)-1] + "-0"
 		}
 	}
@@ -868,6 +868,7 @@ func main() {
 	for _, k := range []int64{1, 15, 19, 20, 77, 78} {
 		ints = append(ints, pow10(k))
 	}
+	nBoundary := len(ints) // every boundary value also as a negative
 	nRand := 24
 	if thorough {
 		nRand = 600
@@ -881,7 +882,7 @@ func main() {
 	}
 	for i, z := range ints {
 		g.spellings(z)
-		if z.Sign() > 0 && (i%2 == 0 || thorough) {
+		if z.Sign() > 0 && (i < nBoundary || i%2 == 0 || thorough) {
 			g.spellings(new(big.Int).Neg(z))
 		}
 		g.addPrint(1, z)
